@@ -425,6 +425,21 @@ func (w *cwWorld) synthInbound(blkNum uint64) types.Transactions {
 			add("xfer-qi", &types.ExternalTx{OriginatingTxHash: w.etxHash(), ETXIndex: uint16(i), Gas: params.TxGas, To: &to, Value: big.NewInt(int64(rc.Intn(int(types.MaxTrimDenomination) + 3))), Sender: from, EtxType: types.DefaultType}) // the value of a Qi ETX is its denomination index
 		}
 	}
+	if !w.rg.preTx && blkNum >= params.TimeToStartTx && rc.Chance(50) {
+		// one more refund of a reverted Quai -> Qi conversion of the refund-only account, carrying as much data as the
+		// sender chose to attach (the slip and then anything)
+		to := w.randQiAddr()
+		data := rc.Bytes([]int{2, 22, 22, 23, 30, 40}[rc.Intn(6)])
+		if len(data) >= 22 {
+			data[2] = 0x00
+			if rc.Bool() {
+				data[3] |= 0x80
+			} else {
+				data[3] &= 0x7f
+			}
+		}
+		add("revert-quai", &types.ExternalTx{OriginatingTxHash: w.etxHash(), ETXIndex: uint16(900), Gas: params.TxGas * 2, To: &to, Value: big.NewInt(1e14 + int64(rc.Intn(1e6))), Data: data, Sender: cwRefundAddr(), EtxType: types.ConversionRevertType})
+	}
 	return out
 }
 
